@@ -14,8 +14,10 @@ RULE = ("bounded-exhaustive: every multiset of 1..5 (thorough 6) items over 0..4
         "(2 of 5 objectives) and, for values <= 200, by ilp (1 of 5 objectives); non-trivial = n > numbins >= 2 and LPT's value "
         "differs from the optimum of that objective; distinct on (algorithm, config, sorted values, numbins); every 10th (thorough: 4th) instance is of class manysmall: "
         "11-13 items with values <= 15, where O1 stays cheap, solved by cg (9 configurations), snp, rnp and ckk (<= 3 bins); 30% of each shard: certificate pairs "
-        "(snp vs complete greedy on 9-12 items, 4-5 bins, values <= 1000; a strictly better validated partition refutes the other)")
-ASSUMPTIONS = ["O1 enumerates all sorted sum-vectors (n <= 10)", "ilp disagreements are re-solved with CBC preprocessing off; agreement then = inconclusive(solver)",
+        "(snp vs complete greedy on 9-12 items, 4-5 bins, values <= 1000; a strictly better validated partition refutes the other); 7 of 8 main-loop slots: complete-greedy focus "
+        "(cheap instances of 5-8 items, every third one of 9-11 items with 2-4 bins; 3 objectives x default switches + a random mask, plus a heuristic-3-on run under min-max) and a ckk/snp focus "
+        "(3-4 bins, 6-9 items); a quarter of the exact runs ask for sums only (the returned sums must be reachable and optimal), plus a sums-only focus on snp/ckk with 10-12 small-valued items and 3-4 bins")
+ASSUMPTIONS = ["O1 enumerates all sorted sum-vectors (n <= 10; n <= 13 for the small-valued and 2-4-bin focus classes)", "ilp disagreements are re-solved with CBC preprocessing off; agreement then = inconclusive(solver)",
                "rnp: numbins <= 5 (numbins >= 6 is KF-rnp-k6, no value returned)"]
 FLOORS = {"quick": {"distinct_nontrivial": 600, "cg.returns": 1000}, "thorough": {"distinct_nontrivial": 3000, "cg.returns": 5000}}
 CLASSES = ("small", "small", "ties", "equal", "perfect", "nearperfect", "powers", "onehuge", "zeros", "kgtn", "grid", "big", "huge", "bignear")
@@ -195,12 +197,16 @@ def run_certificate_pair(k, values, rng, ctx):
     ctx.counters["certificate_pairs"] += 1
 
 
-def run_cg_focus(k, values, rng, ctx):
+def run_cg_focus(k, values, rng, ctx, large=False):
     vectors = O.sum_vectors(values, k)
     optcache = {}
-    base = {"kind": "partition", "k": k, "values": values, "cls": "cg_focus", "pres": "list", "pres_seed": 0, "alg": "cg"}
+    base = {"kind": "partition", "k": k, "values": values, "cls": "cg_focus_large" if large else "cg_focus", "pres": "list", "pres_seed": 0, "alg": "cg"}
+    keep_fast = 0b0001 if large else 0                     # 9-11 items: the lower bound stays on so that one run stays in the millisecond range
     for name in ("maxmin", "minmax", "diff"):
-        for mask in (0b1011, rng.randrange(16)):          # default switches (bound, fast bound, seen states) and one random combination
+        masks = [0b1011, rng.randrange(16) | keep_fast]    # default switches (bound, fast bound, seen states) and one random combination
+        if name == "minmax":
+            masks.append(rng.randrange(16) | 0b0100 | keep_fast)      # heuristic 3 only acts under the min-max objective: one more run with it switched on
+        for mask in masks:
             judge_one(dict(base, objective=[name, None], cg_mask=mask), vectors, ctx, optcache)
 
 
@@ -274,12 +280,35 @@ def run_shard(spec, rng, ctx):
                 ctx.counters["ckk_focus_instances"] += 1
                 i += 1
                 continue
+            if i % 8 == 3:
+                # snp / ckk asked for SUMS ONLY on 10-12 small-valued items with 3-4 bins: the sums-only manager and the contents manager are separate code paths inside the
+                # searches, and a shortcut that is only taken on one of them shows as a non-optimal (or unreachable) sum vector for a cheaper output type
+                k = rng.choice([3, 3, 4])
+                vals = [rng.randint(1, rng.choice([20, 20, 30])) for _ in range(rng.randint(10, 12 if k == 3 else 11))]
+                vectors = O.sum_vectors(vals, k)
+                optcache = {}
+                base = {"kind": "partition", "k": k, "values": vals, "cls": "sums_only_focus", "pres": rng.choice(["list", "list", "dict_str", "array"]), "pres_seed": rng.randrange(1 << 30)}
+                judge_one(dict(base, alg="snp", sums_only=True), vectors, ctx, optcache)
+                if k == 3 and len(vals) <= 10:
+                    judge_one(dict(base, alg="ckk", sums_only=True), vectors, ctx, optcache)
+                if rng.random() < 0.25:
+                    judge_one(dict(base, alg="snp"), vectors, ctx, optcache)
+                ctx.counters["sums_only_focus_instances"] += 1
+                i += 1
+                continue
             if i % 8 != 0:
                 # complete-greedy focus: MANY cheap instances (3-5 bins, 5-8 items, values up to 100), each under 6 configurations (3 objectives x the default
                 # switches and one random mask): pruning rules that cut an optimal leaf only on a rare arithmetic coincidence of the input need instance volume
-                k = rng.choice([3, 3, 4, 5])
-                vals = [rng.randint(0 if rng.random() < 0.1 else 1, rng.choice([20, 30, 100])) for _ in range(rng.randint(5, 8 if k <= 4 else 7))]
-                run_cg_focus(k, vals, rng, ctx)
+                if i % 3 == 1:
+                    # larger instances (9-11 items, 2-4 bins): some pruning defects need a collision between states reached from different parents, seen only from ~11 items on
+                    k = rng.choice([2, 3, 3, 4])
+                    vals = [rng.randint(0 if rng.random() < 0.1 else 1, rng.choice([20, 30, 100])) for _ in range(rng.randint(9, 11 if k <= 3 else 10))]
+                    run_cg_focus(k, vals, rng, ctx, large=True)
+                    ctx.counters["cg_focus_large_instances"] += 1
+                else:
+                    k = rng.choice([3, 3, 4, 5])
+                    vals = [rng.randint(0 if rng.random() < 0.1 else 1, rng.choice([20, 30, 100])) for _ in range(rng.randint(5, 8 if k <= 4 else 7))]
+                    run_cg_focus(k, vals, rng, ctx)
                 ctx.counters["cg_focus_instances"] += 1
                 i += 1
                 continue
